@@ -13,6 +13,8 @@ AX = "xyz"
 
 
 def cq(re, im=0) -> str:
+    if frac(im) == 0:
+        return f"(rl {qlit(re)})"
     return f"({qlit(re)}, {qlit(im)})"
 
 
@@ -102,6 +104,50 @@ def scene_term(case, out, inj=None, pmls="[]") -> str:
             f"{w[0]} {w[1]} {w[2]} {qlit(out['ref'])} {M3_of(shape, out['ieps'])} {M3_of(shape, out['imu'])} "
             f"{M3_of(shape, out.get('sigE'))} {M3_of(shape, out.get('sigH'))} {qlit(out['eta0'])} {qlit(out['cn'])} "
             f"{M3_of(shape, mE)} {M3_of(shape, mH)} {pmls} {inj_t})")
+
+
+def inj_term(shape, injE, injH) -> str:
+    """oracle source injections: lists over time steps of comp-major arrays"""
+    e = lst([V3_of(shape, a) for a in injE])
+    h = lst([V3_of(shape, a) for a in injH])
+    return f"(fun t => nth t {e} (vzero K)) (fun t => nth t {h} (vzero K))"
+
+
+def steps_expr(case_shape, sc, steps, exact, tol=1e-9, scale=4):
+    """steps: list of (fn, a, b): model step `fn` (forwardX/backwardX) applied to implementation state a must give
+    implementation state b.  The scene term and every state literal are bound once."""
+    nx, ny, nz = case_shape
+    cmp_ = "fields_eqb" if exact else f"fields_close {qlit(tol)} {qlit(scale)}"
+    ids, binds = {}, []
+    def ref(st):
+        if id(st) not in ids:
+            n = len(ids)
+            ids[id(st)] = n
+            binds.append(f"let fe{n} := {fields_lit(st['E'])} in let fh{n} := {fields_lit(st['H'])} in ")
+        return ids[id(st)]
+    def v3(name):
+        return f"(V3_of K {nx} {ny} {nz} (nth 0 {name} []) (nth 1 {name} []) (nth 2 {name} []))"
+    parts = []
+    for fn, a, b in steps:
+        ia, ib = ref(a), ref(b)
+        parts.append(f"(let s := {fn} K sc (mkSt (K:=K) {a['t']} {v3(f'fe{ia}')} {v3(f'fh{ia}')} [] []) in (Nat.eqb (tstep s) {b['t']}) && "
+                     f"({cmp_} (V3_tab K {nx} {ny} {nz} (fE s)) fe{ib}) && ({cmp_} (V3_tab K {nx} {ny} {nz} (fH s)) fh{ib}))")
+    return f"(let sc := {sc} in " + "".join(binds) + "(" + " && ".join(parts) + ")%bool)"
+
+
+def np_fields(x):
+    """hex nested lists (or {re,im}) -> numpy complex array"""
+    import numpy as np
+    def conv(a):
+        return np.array([[[[float.fromhex(v) for v in r] for r in p] for p in c] for c in a])
+    if isinstance(x, dict):
+        return conv(x["re"]) + 1j * conv(x["im"])
+    return conv(x).astype(complex)
+
+
+def maxabs(out) -> float:
+    import numpy as np
+    return max(float(np.abs(np_fields(s[f])).max()) for s in out["states"] for f in ("E", "H"))
 
 
 def state_term(shape, t, E, H, psiE="[]", psiH="[]") -> str:
